@@ -234,8 +234,14 @@ class CronCondition(TriggerCondition[CronContext]):
 
         # Check if current timestamp exactly matches a scheduled time
         if croniter.match(self.cron_expression, context.timestamp):
-            # Exact match - time difference is 0
-            time_diff_seconds = 0.0
+            # croniter.match has the precision of the smallest cron field: the timestamp lies
+            # inside the scheduled minute (second, for 6-field expressions); the time
+            # difference is the offset from the start of that unit, not 0
+            if len(self.cron_expression.split()) >= 6:
+                scheduled = context.timestamp.replace(microsecond=0)
+            else:
+                scheduled = context.timestamp.replace(second=0, microsecond=0)
+            time_diff_seconds = (context.timestamp - scheduled).total_seconds()
         else:
             # Get previous scheduled time and calculate difference
             prev_time = cron.get_prev(datetime)
